@@ -103,8 +103,20 @@ var props = map[string]prop{
 		p.Parts = append(p.Parts, race)
 		return p
 	}(),
-	"C10": e1prop("C10", 240, 6000, e1Case+"corruption-heavy profile: encoded blocks, block batches, locators and transaction sets are bit-flipped, truncated and spliced in transit and fed to the real decoders and, when they still decode, to ValidateBlock / ValidateTransaction / ValidateV2Transaction on nodes in reachable states; every call runs under recover; accepted blocks are applied and (through reorgs) reverted. Non-trivial = at least one corrupted message reached a decoder.",
-		"fault.bitflip", "fault.truncate", "fault.splice", "node.undecodable"),
+	"C10": func() prop {
+		p := e1prop("C10", 240, 6000, e1Case+"corruption-heavy profile: encoded blocks, block batches, locators and transaction sets are bit-flipped, truncated and spliced in transit and fed to the real decoders and, when they still decode, to ValidateBlock / ValidateTransaction / ValidateV2Transaction on nodes in reachable states; every call runs under recover; accepted blocks are applied and (through reorgs) reverted; structure-aware rows (extreme currencies, covered-field and multiproof leaf-count bounds, cross-kind parents). Second part (engine E2, hostile peer): a peer that completed the RHP2 / RHP3 (mux) / RHP4 handshake honestly sends one request or response whose bytes are a valid encoding damaged in one place (a small 8-byte field set to 2^20..2^24 or to values near 2^62..2^64, truncation, bit flips, splice, appended garbage); the other side reads it with the real transport and codec; gateway objects are decoded from such bytes through the codec hooks. It may return anything; it must not panic, must not end the process, and must not allocate more than 64 x (bytes sent + reader limit) + 4 MiB. Non-trivial = at least one damaged message reached a decoder.",
+			"fault.bitflip", "fault.truncate", "fault.splice", "node.undecodable", "hostile.decoded", "hostile.accepted", "session.hostile-rhp2", "session.hostile-rhp3", "session.hostile-rhp4", "session.hostile-gateway")
+		p.Parts = append(p.Parts, part{Engine: "E2", Pkg: "sess", Profile: "C10", QuickRuns: 32000, QuickBudgetS: 60, ThoroughRuns: 1600000, ThoroughBudgetS: 900})
+		comps := map[string]string{}
+		for k, v := range p.Components {
+			comps[k] = v
+		}
+		for k, v := range e2Components {
+			comps[k] = v
+		}
+		p.Components = comps
+		return p
+	}(),
 	"C20": e1prop("C20", 240, 6000, e1Case+"2-4 light clients per run consume their node's ApplyUpdate/RevertUpdate stream after a JSON round trip of every update and must end with proofs that verify against the state exactly like in-memory clients (every tracked element, incl. spent ones and contracts, across reorgs).",
 		"probe.light.json-update", "reach.light-revert"),
 	"C02": e1prop("C02", 240, 6000, e1Case+"probe profile: at sampled reachable states the adversary builds blocks that contain a second use of an element (same transaction, two transactions, v1+v2, ephemeral, spent in an earlier block with pre-spend or maintained proof, siafunds), re-signed and re-sealed so that nothing else is wrong, and offers them to ValidateBlock on a private fork: every one must be rejected, every control accepted; over accepted histories the reference ledger refuses any repeated spend/resolution. Non-trivial = at least one probe row offered.",
